@@ -601,11 +601,11 @@ Proof.
 Qed.
 
 Lemma import_gsref c cm name idx i :
-  RG.cm_get cm name = Some idx ->
+  RG.cm_get cm (bytes_of_string name) = Some idx ->
   RG.import_instance c cm (gsref name i) = RG.IOk (mkinst EmptyString idx (i_loc i) (i_reflect i) (i_angle i)).
 Proof.
   intros H. unfold RG.import_instance, gsref. cbn [GdsData.sr_name GdsData.sr_xy GdsData.sr_strans].
-  rewrite bytes_str_roundtrip, H, import_gp. unfold gstrans.
+  rewrite H, import_gp. unfold gstrans.
   destruct (i_reflect i) eqn:R; cbn [orb].
   - cbn [GdsData.st_abs_mag GdsData.st_abs_angle GdsData.st_mag GdsData.st_reflected GdsData.st_angle orb].
     rewrite andb_false_r. reflexivity.
@@ -618,7 +618,7 @@ Qed.
 Definition imp_inst (idx : nat) (i : instance) : instance := mkinst EmptyString idx (i_loc i) (i_reflect i) (i_angle i).
 
 Lemma pass1_srefs c cm ly : forall (srs : list (string * instance)) (idxs : list nat) I E B T,
-  Forall2 (fun sr idx => RG.cm_get cm (fst sr) = Some idx) srs idxs ->
+  Forall2 (fun sr idx => RG.cm_get cm (bytes_of_string (fst sr)) = Some idx) srs idxs ->
   RG.pass1_all c cm (RG.mkp1 ly I E B T) (map (fun sr => GdsData.ESref (gsref (fst sr) (snd sr))) srs) =
   RG.IOk (RG.mkp1 ly (I ++ map (fun p => imp_inst (snd p) (snd (fst p))) (combine srs idxs)) E B T).
 Proof.
@@ -724,7 +724,7 @@ Section LayoutRT.
   Hypothesis Hexp : export_layout xcfg_fixed ly cells l = Ok g.
   Hypothesis Hshapes : Forall elem_shape_ok (lay_elems l).
   Hypothesis Hcm : forall i ci, In i (lay_insts l) -> nth_error cells (i_cell i) = Some ci ->
-                     exists idx, RG.cm_get cm (c_name ci) = Some idx.
+                     exists idx, RG.cm_get cm (bytes_of_string (c_name ci)) = Some idx.
   (* the importer's `contains` on the label points: no panic, the own shape contains its label, and
      a shape of the same layer number that contains a label carries that net (up to case) *)
   Hypothesis Hnp : forall ej nm loc ek, In ej (lay_elems l) -> e_net ej = Some nm ->
@@ -740,7 +740,7 @@ Section LayoutRT.
       exists nm', e_net ek = Some nm' /\ lower nm' = lower nm.
 
   Definition inst_rel (i i' : instance) : Prop :=
-    exists ci idx, nth_error cells (i_cell i) = Some ci /\ RG.cm_get cm (c_name ci) = Some idx /\
+    exists ci idx, nth_error cells (i_cell i) = Some ci /\ RG.cm_get cm (bytes_of_string (c_name ci)) = Some idx /\
                    i' = mkinst EmptyString idx (i_loc i) (i_reflect i) (i_angle i).
   Definition elem_rel (e e' : element) : Prop :=
     e_net e' = option_map lower (e_net e) /\ e_shape e' = ishape e /\
@@ -768,7 +768,7 @@ Section LayoutRT.
     destruct (export_elements_items _ _ _ Hd Hgl) as [its [Hits [Hcat Hne]]]. rewrite Hcat.
     (* the instances *)
     assert (Hsr : exists srs idxs, gis = map (fun sr => GdsData.ESref (gsref (fst sr) (snd sr))) srs /\
-                   Forall2 (fun sr idx => RG.cm_get cm (fst sr) = Some idx) srs idxs /\
+                   Forall2 (fun sr idx => RG.cm_get cm (bytes_of_string (fst sr)) = Some idx) srs idxs /\
                    Forall2 inst_rel (lay_insts l) (map (fun p => imp_inst (snd p) (snd (fst p))) (combine srs idxs))).
     { clear Hexp Hgl Hcat Hits. revert Hcm. generalize dependent (lay_insts l). intros insts0 E.
       induction E as [|i gi insts gis Hi Hr IH]; intros Hcm0.
